@@ -505,6 +505,24 @@ func (i *Install) performInstall(rel *release.Release, toBeAdopted kube.Resource
 		}
 	}
 
+	if i.Replace {
+		// An older revision can still be marked deployed, for instance the last good
+		// revision below a failed upgrade or below a revision that was uninstalled
+		// with keep-history. Now that the install has succeeded, supersede it, so
+		// that only the new revision ends up deployed. (Doing this before the
+		// install would take the deployed mark away even when the install fails.)
+		if deployed, err := i.cfg.Releases.DeployedAll(rel.Name); err == nil {
+			for _, d := range deployed {
+				if d.Version != rel.Version {
+					d.SetStatus(release.StatusSuperseded, "superseded by new release")
+					if err := i.recordRelease(d); err != nil {
+						slog.Error("failed to record the superseded release", slog.Any("error", err))
+					}
+				}
+			}
+		}
+	}
+
 	if len(i.Description) > 0 {
 		rel.SetStatus(release.StatusDeployed, i.Description)
 	} else {
@@ -626,19 +644,6 @@ func (i *Install) replaceRelease(rel *release.Release) error {
 
 	// Update version to the next available
 	rel.Version = last.Version + 1
-
-	// An older revision can still be marked deployed, for instance the last good
-	// revision below a failed upgrade or below a revision that was uninstalled
-	// with keep-history. Supersede it as well, so that only the new revision
-	// ends up deployed.
-	for _, h := range hist[1:] {
-		if h.Info.Status == release.StatusDeployed {
-			h.SetStatus(release.StatusSuperseded, "superseded by new release")
-			if err := i.recordRelease(h); err != nil {
-				return err
-			}
-		}
-	}
 
 	// Do not change the status of a failed release.
 	if last.Info.Status == release.StatusFailed {
